@@ -18,7 +18,6 @@ ASSUMPTIONS = [
     "when the gap exceeds 1e-4; tolerance on the optimality gap of the converged run: relative 1e-3 + absolute "
     "1e-9, the worst observed gap is reported on every run",
     "full-rank designs with continuous noise, data scale O(1) (delta=1e-4 is an absolute smoothing constant)",
-    "with sample weights 'mean' is ambiguous: score may normalise by n or by sum(w)",
 ]
 EPS_REL = 1e-3
 
@@ -89,8 +88,10 @@ def run_case(case, ctx):
     X, y = make_data(rng, n, p, noise, positive)
     # container / dtype / scale classes: the loss is scale-equivariant and the estimator documents that the
     # target "will be cast to X's dtype if necessary"
-    variant = ["float64", "float64", "float64", "int-target", "int-features", "large-scale", "float32-features",
+    variant = ["float64", "float64", "tiny-scale", "int-target", "int-features", "large-scale", "float32-features",
                "fortran-order"][(sub // 3) % 8]
+    S = 1.0            # magnitude of the targets; absolute slacks and the IRLS floor `delta` follow it
+    y_unit = None
     if variant == "int-target":
         y = numpy.round(y * 10).astype(numpy.int64)
     elif variant == "int-features":
@@ -102,6 +103,11 @@ def run_case(case, ctx):
             X, y = make_data(rng, n, p, noise, positive)
     elif variant == "large-scale":
         y = y * 1e5 + 3e5
+    elif variant == "tiny-scale":
+        # the loss is positively homogeneous: the LP optimum is computed on the unit-scale problem and scaled
+        S = 10.0 ** (-int(rng.randint(6, 11)))
+        y_unit = y
+        y = y * S
     elif variant == "float32-features":
         X = X.astype(numpy.float32)
     elif variant == "fortran-order":
@@ -128,23 +134,36 @@ def run_case(case, ctx):
         win = None if w is None else pandas.Series(w, index=ix)
         cfg["index"] = "permuted"
 
-    def new():
-        return QuantileLinearRegression(quantile=q, max_iter=300, positive=positive,
-                                        fit_intercept=fit_intercept)
+    A = 1e-9 * S
+    copy_X = (sub // 11) % 6 != 0          # copy_X=False: X may be overwritten, the fit is the same fit
+    cfg["copy_X"] = copy_X
+    if not copy_X:
+        ctx.cls("copy_X=False")
+
+    def new(max_iter=300, quantile=None):
+        return QuantileLinearRegression(quantile=q if quantile is None else quantile, max_iter=max_iter,
+                                        positive=positive, fit_intercept=fit_intercept, delta=1e-4 * S,
+                                        copy_X=copy_X)
 
     numpy.random.seed(sub % (2 ** 31))
     m = new()
+    if not copy_X:
+        Xin = Xin.copy()
     r = m.fit(Xin, yin) if w is None else m.fit(Xin, yin, sample_weight=win)
     ctx.check(r is m, "C05/fit/returns-not-self", "fit did not return the estimator", cfg=cfg)
     f = m.predict(X)
-    lstar = lp_optimum(X, y, q, w, fit_intercept, positive)
+    lstar = lp_optimum(X, y if y_unit is None else y_unit, q, w, fit_intercept, positive)
+    if lstar is not None and y_unit is not None:
+        lstar = lstar * S
     lfit = pinball(y, f, q, w)
-    if lstar is not None and lfit > lstar * (1 + 1e-4) + 1e-9:
+    if lstar is not None and lfit > lstar * (1 + 1e-4) + A:
         # IRLS converges slowly at extreme quantiles on small samples (gap 1.2e-3 after 300 iterations, 7e-6 after
         # 2 326 on n=35, q=0.05): "up to the IRLS tolerance" is judged on a converged run
         ctx.hit("fit.slow_convergence_refit")
         numpy.random.seed(sub % (2 ** 31))
-        m = QuantileLinearRegression(quantile=q, max_iter=6000, positive=positive, fit_intercept=fit_intercept)
+        m = new(max_iter=6000)
+        if not copy_X:
+            Xin = pandas.DataFrame(X.copy(), columns=["c%d" % i for i in range(p)]) if frame else X.copy()
         m.fit(Xin, y) if w is None else m.fit(Xin, y, sample_weight=w)
         f = m.predict(X)
         lfit = pinball(y, f, q, w)
@@ -155,12 +174,12 @@ def run_case(case, ctx):
         gap = lfit / lstar if lstar > 0 else 1.0
         ctx.extra["max_ratio"] = gap
         ctx.extra["cfg_of_max"] = cfg
-        if not (lfit <= lstar * (1 + EPS_REL) + 1e-9):
+        if not (lfit <= lstar * (1 + EPS_REL) + A):
             kind = "weighted" if weighted else "unweighted"
             ctx.violation("C05/fit/not-optimal/%s%s" % (kind, "/positive" if positive else ""),
                           "pinball loss of the fit %.6g exceeds the LP optimum %.6g by factor %.5f" % (
                               lfit, lstar, gap), cfg=cfg, coef=m.coef_, intercept=m.intercept_)
-        if lfit < lstar * (1 - 1e-7) - 1e-9:
+        if lfit < lstar * (1 - 1e-7) - A:
             ctx.violation("C05/oracle/below-lp-optimum", "fit beats the LP optimum: oracle problem",
                           cfg=cfg, lfit=lfit, lstar=lstar)
         if q != 0.5 and n >= 5 * (p + 1) and lstar > 0:
@@ -196,21 +215,34 @@ def run_case(case, ctx):
             continue
         ctx.hit("score.exact")
         tot = pinball(ya, fa, q, wa)
-        cands = [2 * tot / len(ya)]
-        if wa is not None:
-            cands.append(2 * tot / float(numpy.sum(wa)))
-        ok = any(abs(s - c) <= 1e-12 * max(1.0, abs(c)) + 1e-12 for c in cands)
-        if not ok:
+        # the mean of a weighted sample is the weighted mean (what "integer weights are equivalent to repeating
+        # rows" and the q = 0.5 case, scikit-learn's weighted mean absolute error, both say)
+        want = 2 * tot / (len(ya) if wa is None else float(numpy.sum(wa)))
+        if not abs(s - want) <= 1e-11 * abs(want) + 1e-12 * S:
             other = 2 * pinball(ya, fa, 1 - q, wa) / len(ya)
-            ctx.violation("C05/score/not-twice-pinball" + ("/weighted" if wa is not None else ""),
-                          "score=%.12g, 2*mean pinball_q=%.12g (2*mean pinball_(1-q)=%.12g)" % (
-                              s, cands[0], other), cfg=cfg, on=name)
+            byn = 2 * tot / len(ya)
+            how = "/weighted" if wa is not None else ""
+            if wa is not None and abs(s - byn) <= 1e-11 * abs(byn):
+                how += "/divided-by-n-not-by-sum-of-weights"
+            ctx.violation("C05/score/not-twice-pinball" + how,
+                          "score=%.12g, 2*mean pinball_q=%.12g (2*mean pinball_(1-q)=%.12g; sum/n=%.12g)" % (
+                              s, want, other, byn), cfg=cfg, on=name)
+    # integer weights are equivalent to repeating rows, for score as well
+    wi = numpy.random.RandomState(sub % 991).randint(1, 4, size=len(y2)).astype(float)
+    try:
+        s_w = float(m.score(X2, y2, sample_weight=wi))
+        s_r = float(m.score(numpy.repeat(X2, wi.astype(int), axis=0), numpy.repeat(y2, wi.astype(int))))
+        ctx.hit("score.weights_vs_repetition")
+        if not abs(s_w - s_r) <= 1e-10 * abs(s_r) + 1e-12 * S:
+            ctx.violation("C05/score/weights-vs-duplication", "score with integer weights %.12g, score on the repeated "
+                          "rows %.12g" % (s_w, s_r), cfg=cfg)
+    except Exception as e:
+        ctx.violation("C05/score/raised/%s" % type(e).__name__, str(e)[:150], cfg=cfg, on="integer weights")
     # a better q-quantile fit never scores worse: compare with rival hyperplanes scored for the same q
     rivals = []
     for q2, it in ((1 - q if q != 0.5 else 0.3, 300), (q, 1), (0.5 if q != 0.5 else 0.8, 300)):
-        mr = QuantileLinearRegression(quantile=q2, max_iter=it, positive=positive,
-                                      fit_intercept=fit_intercept)
-        mr.fit(X, y)
+        mr = new(max_iter=it, quantile=q2)
+        mr.fit(X.copy(), y)
         mr.set_params(quantile=q)
         rivals.append(mr)
     scored = [(pinball(y2, mm.predict(X2), q), float(mm.score(X2, y2))) for mm in [m] + rivals]
@@ -218,9 +250,9 @@ def run_case(case, ctx):
         for j in range(len(scored)):
             li, si = scored[i]
             lj, sj = scored[j]
-            if li < lj * (1 - 1e-9) - 1e-12:
+            if li < lj * (1 - 1e-9) - 1e-12 * S:
                 ctx.hit("score.monotone")
-                ctx.check(si <= sj + 1e-12, "C05/score/not-monotone",
+                ctx.check(si <= sj + 1e-12 * S, "C05/score/not-monotone",
                           "hyperplane with smaller pinball loss (%.6g < %.6g) scores worse (%.6g > %.6g)" % (
                               li, lj, si, sj), cfg=cfg)
     # integer weights are equivalent to repeated rows
@@ -229,11 +261,11 @@ def run_case(case, ctx):
         Xr = numpy.repeat(X, rep, axis=0)
         yr = numpy.repeat(y, rep)
         numpy.random.seed(sub % (2 ** 31))
-        mrep = new().fit(Xr, yr)
+        mrep = new().fit(Xr.copy(), yr)
         la = pinball(yr, m.predict(Xr), q)
         lb = pinball(yr, mrep.predict(Xr), q)
         ctx.hit("weights.duplication")
-        ctx.check(abs(la - lb) <= 2 * EPS_REL * max(la, lb) + 1e-9, "C05/fit/weights-vs-duplication",
+        ctx.check(abs(la - lb) <= 2 * EPS_REL * max(la, lb) + A, "C05/fit/weights-vs-duplication",
                   "weighted fit and repeated-rows fit differ: pinball %.6g vs %.6g on the repeated data" % (
                       la, lb), cfg=cfg)
     ctx.sample({"cfg": cfg, "coef": m.coef_, "intercept": m.intercept_, "pinball_fit": lfit,
